@@ -60,6 +60,11 @@ class Vals:
         return palettes.seed_rng(self.seed, 1400 + salt)
 
     def taa(self, i):
+        if self.variant == "wound":
+            # the fixed poses with one rotation component wound beyond a full turn (a valid six-vector: it is stored as written)
+            q = list(self.POSES[i % len(self.POSES)])
+            q[3 + i % 3] += 7.0 if i % 2 == 0 else -6.9
+            return q
         if self.variant == "fixed":
             return list(self.POSES[i % len(self.POSES)])
         r = self._rng(i)
@@ -69,7 +74,7 @@ class Vals:
         return [float(x) for x in np.concatenate([p, w])]
 
     def vec6(self, i):
-        if self.variant == "fixed":
+        if self.variant in ("fixed", "wound"):
             return list(self.VEC6[i % len(self.VEC6)])
         return [float(x) for x in self._rng(50 + i).uniform(0.5, 5, size=6) * np.array([1, -1, 1, 1, -1, 1])]
 
@@ -77,10 +82,10 @@ class Vals:
         return self.vec6(i)[:3]
 
     def scalar(self, i=0):
-        return 2.0 if self.variant == "fixed" else float(self._rng(90 + i).uniform(1.5, 3.5))
+        return 2.0 if self.variant in ("fixed", "wound") else float(self._rng(90 + i).uniform(1.5, 3.5))
 
     def thetas(self, n, i=0):
-        if self.variant == "fixed":
+        if self.variant in ("fixed", "wound"):
             return np.array([0.1, 0.4, -0.3, 0.25, -0.5, 0.2, 0.15][:n]) * (1 + 0.5 * i)
         return self._rng(70 + i).uniform(-0.6, 0.6, size=n)
 
@@ -1141,11 +1146,19 @@ def palette_ids(e, seed, tier="quick"):
                 b = _values(list(fac(Vals(seed, "seed"))[e.opaque:]))
             if a != b:
                 out.append((pn + "~seed", "seed"))
+    # transforms whose rotation vector is wound beyond a full turn (helpers that normalise angles must do so on a copy)
+    if e.group in ("tm", "fsr") and e.mode != "ctor":
+        pn, fac = e.pals[0]
+        with contextlib.redirect_stdout(io.StringIO()):
+            a = _values(list(fac(Vals(seed, "fixed"))[e.opaque:]))
+            c = _values(list(fac(Vals(seed, "wound"))[e.opaque:]))
+        if a != c:
+            out.append((pn + "~wound", "wound"))
     return out
 
 
 def _variant(pid):
-    return "seed" if pid.endswith("~seed") else "fixed"
+    return "seed" if pid.endswith("~seed") else ("wound" if pid.endswith("~wound") else "fixed")
 
 
 def explore(seed, acc, only=None, tier="quick"):
